@@ -411,6 +411,11 @@ def pair_params(ctx, rng, quick, with_cross=True):
     some = rng.sample(ids, 12) + [x + "+" for x in rng.sample([y for y in ids if not y.endswith("-or-later")], 6)]
     both = refs + some + [some[0] + " WITH " + excs[0]]
     block(both, both)
+    # (d) the exception in other letter cases (listed exception ids are matched case-insensitively, like license ids)
+    more = list(dict.fromkeys(excs + rng.sample(t["exceptions"], 3)))
+    lic = [some[0], some[1].lower(), some[12]] if len(some) > 12 else some[:3]
+    cased = [x + " WITH " + v for x in lic for e in more for v in dict.fromkeys([e, e.lower(), e.upper()])]
+    block(cased, cased)
     return texts, blocks
 
 
